@@ -39,12 +39,24 @@ def run(prop, tier, vseed):
                   {"alphabet": "mini", "depth": 2, "seeds": "rep6"},
                   {"alphabet": "mini", "depth": 2, "seeds": "preread"}]),
         ]
-    else:
+    elif prop == "C02":
+        # (each C02 transition costs ~3x a C01 one: fresh parse, independent reader, save + reload)
         plan = [
             (rm, [{"alphabet": "full", "depth": 3}, {"alphabet": "sub", "depth": 4}]),
             (tm, [{"alphabet": "full", "depth": 1, "seeds": "all"},
-                  {"alphabet": "full", "depth": 2, "seeds": "xmlctor"},
-                  {"alphabet": "mini", "depth": 3, "seeds": "rep"},
+                  {"alphabet": "full", "depth": 2, "seeds": "rep6"},
+                  {"alphabet": "mini", "depth": 2, "seeds": "xmlctor"},
+                  {"alphabet": "sub", "depth": 2, "seeds": "preread"}]),
+        ]
+    else:
+        # sized to finish in about 40 minutes on 16 cores (the full alphabet at depth 2 from all 107
+        # seeds is 7 M transitions, mini at depth 3 from 16 seeds 16 M: not affordable)
+        plan = [
+            (rm, [{"alphabet": "full", "depth": 3}, {"alphabet": "sub", "depth": 4}]),
+            (tm, [{"alphabet": "full", "depth": 1, "seeds": "all"},
+                  {"alphabet": "full", "depth": 2, "seeds": "rep"},
+                  {"alphabet": "mini", "depth": 2, "seeds": "xmlctor"},
+                  {"alphabet": "mini", "depth": 3, "seeds": "rep3"},
                   {"alphabet": "sub", "depth": 2, "seeds": "preread"}]),
         ]
     extra_f, extra_c = [], None
